@@ -238,6 +238,53 @@ def gen_exclusion_query(rng, world, view):
     return q
 
 
+def gen_shared_filter_query(rng, world, view):
+    """two or three suffixed groups carrying the IDENTICAL member_of (or
+    forbidden-aggregate / required-trait) filter but asking for different
+    resources, each aimed at a different member provider: what one group
+    makes of the filter must not leak into the next"""
+    v = rng.choice([25, 29, 32, 33, 36, 39, 39])
+    q = {'version': v, 'groups': {}, 'group_policy': 'none',
+         'root_required': set(), 'root_forbidden': set(),
+         'same_subtree': [], 'limit': None}
+    by_agg = {}
+    for u in view.rps:
+        if view.inv[u]:
+            for a in view.aggs[u]:
+                by_agg.setdefault(a, []).append(u)
+            # (an aggregate on the root spans its tree)
+            for a in view.aggs[view.top[u]]:
+                if u not in by_agg.setdefault(a, []):
+                    by_agg[a].append(u)
+    cands = [(a, us) for a, us in sorted(by_agg.items()) if len(us) >= 2]
+    if not cands:
+        return gen_exclusion_query(rng, world, view)
+    a, us = rng.choice(cands)
+    # prefer members of one tree (the groups of a request share a tree)
+    x = rng.choice(us)
+    same = [u for u in us if u != x and view.top[u] == view.top[x]]
+    rest = [u for u in us if u != x]
+    ps = [x, rng.choice(same or rest)]
+    if len(us) > 2 and rng.random() < 0.3:
+        ps.append(rng.choice([u for u in us if u not in ps]))
+    names = rng.sample(['1', '2', '3', '10'] if v < 33 else
+                       ['_A', '_B', '1', '_net', 'X'], len(ps))
+    for name, pvd in zip(names, ps):
+        g = new_group()
+        g['resources'] = fitting_resources(rng, view, pvd, 1) or \
+            gen_resources(rng, world.classes, 1)
+        g['member_of'] = [{a}]
+        q['groups'][name] = g
+    if rng.random() < 0.25:
+        q['group_policy'] = 'isolate'
+    if v >= 29 and rng.random() < 0.3:
+        q['groups'][''] = new_group()
+        q['groups']['']['resources'] = gen_resources(rng, world.classes, 1)
+        if rng.random() < 0.5:
+            q['groups']['']['member_of'] = [{a}]
+    return q
+
+
 def gen_subtree_query(rng, world, view):
     """three suffixed groups aimed at a provider X and two providers Y, Z
     below it in DIFFERENT branches, with a wide same_subtree constraint over
